@@ -306,6 +306,11 @@ def gen_program(rng, n_ops=40, stress=None):
             return [["in", r_anyspec(), r_spec()]]
         if r < 0.46:      # attribute protocol
             tgt = rng.choice([r_obj(), r_cls()])
+            if rng.random() < 0.25:
+                inst, cls = rng.choice([(r_obj(), r_cls()), (r_obj(), None), (None, r_cls())])
+                if rng.random() < 0.5:
+                    return [["descr_get", "osd", inst, cls]]
+                return [["descr_get", "cpb", inst, cls, ["c", rng.choice(classes)]]]
             return [["getattr", tgt, rng.choice(["__providedBy__", "__provides__", "__implemented__"])]]
         if r < 0.62:      # comparison / hash / sort
             q = rng.random()
@@ -394,6 +399,9 @@ def gen_matrix(rng):
             ["getattr", o, "__providedBy__"], ["getattr", o, "__provides__"], ["getattr", o, "__implemented__"],
             ["decl", "directlyProvides", o, [I]], ["decl", "alsoProvides", o, [I]], ["directlyProvidedBy", o],
             ["decl", "noLongerProvides", o, [I]], ["implementedBy", o], ["m", "implementedBy", I, o],
+            ["descr_get", "osd", o, None], ["descr_get", "osd", o, ["c", c0]], ["descr_get", "osd", None, o],
+            ["descr_get", "cpb", o, None, ["c", c0]], ["descr_get", "cpb", o, ["c", c0], ["c", c0]],
+            ["descr_get", "cpb", None, o, ["c", c0]],
         ]
 
     def foreign(f):
@@ -661,6 +669,54 @@ def finding_key(case, obs, mode):
     return None
 
 
+def on_driver_crash(run, mode, res, cases):
+    """The interpreter died (signal) in one mode: find the program, cut it down, report it."""
+    impl = C.Impl()
+    try:
+        def crashes(cs):
+            try:
+                st, _r = impl.run(DRIVER, {"cases": cs}, mode, timeout=300)
+            except Exception:
+                return True
+            return st != "ok"
+        pool = list(cases)
+        if not crashes(pool):
+            raise C.HarnessError("driver crash in mode %s not reproducible: %s" % (mode, json.dumps(res)[:2000]))
+        while len(pool) > 1:
+            half = pool[: len(pool) // 2]
+            pool = half if crashes(half) else pool[len(pool) // 2:]
+        case = pool[0]
+        if not crashes([case]):
+            raise C.HarnessError("driver crash in mode %s needs more than one program" % mode)
+        ops = list(case["ops"])
+        # shortest crashing prefix, then drop ops one by one
+        lo, hi = 1, len(ops)
+        while lo < hi:
+            mid = (lo + hi) // 2
+            if crashes([dict(case, ops=ops[:mid])]):
+                hi = mid
+            else:
+                lo = mid + 1
+        ops = ops[:lo]
+        j = 0
+        while j < len(ops) - 1 and len(ops) > 1:
+            cand = ops[:j] + ops[j + 1:]
+            if crashes([dict(case, ops=cand)]):
+                ops = cand
+            else:
+                j += 1
+        small = dict(case, ops=ops)
+        rp = {"property": ID, "kind": "the interpreter crashes while executing this API program", "mode": mode,
+              "case": small, "cases": [small], "crash": res, "how_to_replay": "bin/check C10 --replay <this file>"}
+        path = run.replay_path("crash_%s" % mode)
+        with open(path, "w") as fh:
+            json.dump(rp, fh, indent=1, sort_keys=True, default=str)
+        run.violations.insert(0, {"what": "driver process died in mode %s (returncode %s) on a %d-op program"
+                                          % (mode, res.get("returncode"), len(ops)), "replay": path, "no_input": False})
+    finally:
+        impl.cleanup()
+
+
 def replay_text(case, obs, mode):
     return ("# PURE_PYTHON=%s; program for harness/drivers/c10_driver.py (ops interpreted by ``Interp.do``)\n"
             "# world: %s\n# ops: %s\n# tokens: %s" % ("1" if mode == "py" else "0", json.dumps(case["world"]),
@@ -818,14 +874,17 @@ def extra(run, impl, known):
               "how_to_replay": "bin/check C10 --replay <this file>",
               "note": "ops are interpreted by harness/drivers/c10_driver.py (Interp.do); the last op is the first "
                       "one on which the two traces differ"}
-        before = len(run.violations)
-        run.add_violation("C and Python traces differ: %s (program %d, %d ops after minimisation)"
-                          % (key, i, len(small["ops"])), rp, "diff_%d" % i, no_input=False, key=key, known=known)
-        mine += run.violations[before:]
-        del run.violations[before:]
+        # written directly (Run.add_violation stops writing replay files after 12 violations, and the
+        # runner's own, unminimised, spec violations come first)
+        path = run.replay_path("diff_%d" % i)
+        with open(path, "w") as fh:
+            json.dump(rp, fh, indent=1, sort_keys=True, default=str)
+        mine.append({"what": "C and Python traces differ: %s (program %d, %d ops after minimisation)"
+                             % (key, i, len(small["ops"])), "replay": path, "no_input": False,
+                     "n_ops": len(small["ops"])})
     # the minimised differential witnesses first (the runner prints the first violation)
-    mine.sort(key=lambda v: v.get("n_ops", 0))
-    run.violations[:0] = mine
+    mine.sort(key=lambda v: v["n_ops"])
+    run.violations[:0] = mine[:12]
 
 
 RULE = ("API programs of 25-60 operations over a generated world (interface DAG, classes with implementer / "
